@@ -22,8 +22,12 @@ FmtPiecesDef == [s \in {} |-> <<>>]
 V(n) == Var(0, n)
 a == Atom("a")
 
+(* Text outside ASCII is written {U+XXXX} in this module (and in every other one): TLC keeps strings  *)
+(* of a state as bytes when it moves states to disk, which corrupts such characters in larger runs.   *)
+(* The checker replaces each {U+XXXX} by the character when it reads the emitted cases, so the        *)
+(* implementation sees the real text.                                                                  *)
 (* ------------------------------ terms ----------------------------------- *)
-Leaves  == {a, Atom("Hello"), Atom("The Beaver"), Atom("x_1"), Atom("渋谷"), V("$Цена"), IntT(0), IntT(7), IntT(42),
+Leaves  == {a, Atom("Hello"), Atom("The Beaver"), Atom("x_1"), Atom("{U+6E0B}{U+8C37}"), V("${U+0426}{U+0435}{U+043D}{U+0430}"), IntT(0), IntT(7), IntT(42),
             FltTx("1.5"), FltTx("0.25"), FltTx("3.14159"), V("$X"), V("$Abc"), Anon}
 LeavesS == {a, Atom("The Beaver"), IntT(7), FltTx("1.5"), V("$X"), Anon}
 LeavesT == {a, IntT(7), V("$X")}
@@ -65,12 +69,12 @@ Bips  ==   {UnifyG(s1, s2) : s1 \in Args2, s2 \in Args1}
             Bip("include", <<Cx("f", <<Anon>>), V("$L"), V("$O")>>), Bip("exclude", <<a, Lst(<<a, IntT(7)>>), V("$O")>>),
             Bip("print_list", <<V("$L")>>), NlG, CutG, FailG}
 (* text outside ASCII: multi-byte characters left and right of every infix operator, in functors, variables *)
-Uni == {Atom("渋谷"), V("$Цена"), Atom("été"), Cx("город", <<Atom("渋谷")>>)}
+Uni == {Atom("{U+6E0B}{U+8C37}"), V("${U+0426}{U+0435}{U+043D}{U+0430}"), Atom("{U+00E9}t{U+00E9}"), Cx("{U+0433}{U+043E}{U+0440}{U+043E}{U+0434}", <<Atom("{U+6E0B}{U+8C37}")>>)}
 UniGoals ==   {UnifyG(u, s) : u \in Uni, s \in {V("$X"), a}} \cup {UnifyG(s, u) : u \in Uni, s \in {V("$X"), a}}
-         \cup {Bip(op, <<u, s>>) : op \in CmpOps, u \in {Atom("渋谷"), V("$Цена"), Atom("été")}, s \in {V("$Y"), Atom("日本")}}
-         \cup {UnifyG(V("$R"), Fn(op, <<V("$Цена"), IntT(5)>>)) : op \in {"add", "subtract", "multiply", "divide"}}
-         \cup {UnifyG(Fn("add", <<V("$Цена"), IntT(5)>>), V("$R")), Call(Cx("город", <<V("$X"), Atom("渋谷")>>)),
-               Bip("print", <<Atom("渋谷 %s"), V("$Цена")>>)}
+         \cup {Bip(op, <<u, s>>) : op \in CmpOps, u \in {Atom("{U+6E0B}{U+8C37}"), V("${U+0426}{U+0435}{U+043D}{U+0430}"), Atom("{U+00E9}t{U+00E9}")}, s \in {V("$Y"), Atom("{U+65E5}{U+672C}")}}
+         \cup {UnifyG(V("$R"), Fn(op, <<V("${U+0426}{U+0435}{U+043D}{U+0430}"), IntT(5)>>)) : op \in {"add", "subtract", "multiply", "divide"}}
+         \cup {UnifyG(Fn("add", <<V("${U+0426}{U+0435}{U+043D}{U+0430}"), IntT(5)>>), V("$R")), Call(Cx("{U+0433}{U+043E}{U+0440}{U+043E}{U+0434}", <<V("$X"), Atom("{U+6E0B}{U+8C37}")>>)),
+               Bip("print", <<Atom("{U+6E0B}{U+8C37} %s"), V("${U+0426}{U+0435}{U+043D}{U+0430}")>>)}
 SimpleS == {Call(Cx("p", <<V("$X")>>)), Call(Cx("q", <<a, V("$Y")>>)), UnifyG(V("$X"), a), Bip("less_than", <<V("$X"), IntT(7)>>),
             CutG, FailG, NlG, Bip("print", <<V("$X")>>), Call(Cx("go", <<>>)), NotG(Call(Cx("p", <<V("$X")>>)))}
 Simple == Calls \cup Bips \cup UniGoals \cup {NotG(g) : g \in {Call(Cx("p", <<V("$X")>>)), UnifyG(V("$X"), a), Bip("equal", <<V("$X"), a>>), Call(Cx("go", <<>>))}}
@@ -85,12 +89,12 @@ Heads == {Cx("h", <<V("$X")>>), Cx("h", <<V("$X"), Lst(<<V("$Y")>>)>>), Cx("h", 
 BodiesR == SimpleS \cup ConjsS \cup {OrG(<<g1, g2>>) : g1 \in ConjsS, g2 \in ConjsS} \cup {AndG(<<g1, g2, g3>>) : g1 \in SimpleS, g2 \in {CutG}, g3 \in SimpleS}
 RuleU == {Clause(h, bd) : h \in Heads, bd \in BodiesR} \cup {Fact(h) : h \in Heads}
          \cup {Fact(Cx("p", <<s>>)) : s \in Args1} \cup {Fact(Cx("mother", <<Atom("June"), Atom("The Beaver")>>))}
-         \cup {Clause(Cx("город", <<V("$X")>>), g) : g \in {UnifyG(Atom("渋谷"), V("$X")), AndG(<<Call(Cx("size", <<V("$S")>>)), UnifyG(Atom("渋谷"), V("$X"))>>),
-                                                     Bip("less_than", <<Atom("été"), V("$X")>>)}}
+         \cup {Clause(Cx("{U+0433}{U+043E}{U+0440}{U+043E}{U+0434}", <<V("$X")>>), g) : g \in {UnifyG(Atom("{U+6E0B}{U+8C37}"), V("$X")), AndG(<<Call(Cx("size", <<V("$S")>>)), UnifyG(Atom("{U+6E0B}{U+8C37}"), V("$X"))>>),
+                                                     Bip("less_than", <<Atom("{U+00E9}t{U+00E9}"), V("$X")>>)}}
 
 (* ------------------------------ strings (C18) --------------------------- *)
 Alphabet == <<"a", "B", "1", "0", "$", "_", "(", ")", "[", "]", ",", ";", "|", ".", " ", "=", "<", ">",
-              "+", "-", "\"", "\\", ":", "é", "日">>
+              "+", "-", "\"", "\\", ":", "{U+00E9}", "{U+65E5}">>
 (* multi-character tokens, inserted / substituted by the text mutations          *)
 Tokens == <<" = ", " :- ", " ; ", ", ", "()", "[]", "$_", " == ", " + ", "not(", "$X", "\\,", "| $T", "!.", "1.5">>
 Sym == {Alphabet[i] : i \in DOMAIN Alphabet}
